@@ -74,7 +74,8 @@ def main():
         meta["needs_to_manifest"] = open(notes).read()[:1500]
     with open(os.path.join(d, "meta.json"), "w") as f:
         json.dump(meta, f, indent=1)
-    # restore the evidence files of the unchanged tree
+    # rebuild the harness against the restored tree and restore the evidence files of the unchanged tree
+    sh("cargo build --offline --quiet", os.path.join(VERIF, "harness"))
     sh("git checkout -- evidence", VERIF)
 
 
